@@ -86,6 +86,11 @@ def lake_build(prop=None):
     """build what this property's check needs: the driver executable, the audit tool and the property module with its
     dependencies (incl. its regenerated terms).  Other properties' generated files are not this check's business."""
     targets = ['driver', 'NflowsModel.Audit.Tool'] + (['NflowsModel.Properties.' + prop] if prop else [])
+    # a property's theorems may continue in Properties/<prop>*.lean (same namespace; imported by its Audit script)
+    if prop:
+        for f in sorted(os.listdir(os.path.join(LEAN_DIR, 'NflowsModel', 'Properties'))):
+            if f.startswith(prop) and f.endswith('.lean') and f != prop + '.lean':
+                targets.append('NflowsModel.Properties.' + f[:-5])
     rc, out = sh(['lake', 'build'] + targets, cwd=LEAN_DIR, timeout=3000)
     return rc, out
 
